@@ -63,6 +63,15 @@ func VerifyFunc(w *World, spec *FuncSpec, prop string, safetyAll bool) (res *Fun
 		facts = append(facts, f, x.refFacts(st, v))
 		x.inputs = append(x.inputs, inputVar{p.Name(), p.Type(), v})
 	}
+	for _, g := range spec.GhostParams {
+		gs, err := x.specSort(g.Type)
+		if err != nil {
+			panic(err)
+		}
+		n := x.vc.Declare("ghost."+g.Name, gs)
+		fr.params[g.Name] = scalar(gs, n)
+		facts = append(facts, rangeFact(gs, n))
+	}
 	for _, fv := range fn.FreeVars {
 		// closure verified on its own: captured variables are arbitrary pointers
 		v, f := x.freshVal("fv."+fv.Name(), fv.Type())
